@@ -27,9 +27,8 @@
     own default is None, whose `defaults` (field default / enclosing default instance) are None too and whose
     (leaf) constructor arguments all equal their defaults yields None.
 
-  Outside the model (`unmodelled`): Union item types, a dict given for a leaf field, `_type_` keys, a file
-  entry naming another file, defaults whose None-ness differs between the definition and the cascade for a
-  non-Optional annotation.  Reused fields (ALWAYS_MERGE), subgroups, `default=` instances and several
+  Outside the model (`unmodelled`): Union *item* types (`List[Union[…]]`), a dict given for a leaf field, `_type_`
+  keys, a file entry naming another file, paths the shared `parsePath` does not keep literally.  Reused fields (ALWAYS_MERGE), subgroups, `default=` instances and several
   config files are not part of this property (C06/C07/C11).
 -/
 import SpVerif.Model.Fields
@@ -231,6 +230,24 @@ def postprocessC (f : FieldSpec) (nsv : Val) : PostOut :=
   | false, .vtuple _, .sc s => tupleOfScalar s
   | _, _, _ => postprocess f nsv
 
+/-- `get_arg_options` when the field's definition default (`field.default`) and its effective default
+    (`FieldWrapper.default`, the cascade) are told apart.  `Fields.argOptions` has one default and reads both
+    `field.default is None` (branch 2 of `get_arg_options`, field_wrapper.py:274) and `self.default is None`
+    (`required`, 815) off it; they differ for a non-Optional annotation in two ways:
+    * `a: int = None` with a value from the file: branch 2 is taken as for `Optional[int]` (wrapped type = the
+      annotation itself, never required), with the file value as the action default;
+    * a definition default that is not None, but a None from the enclosing default instance: the ordinary branch with
+      no default at all (`required` unless forced off). -/
+def argOptionsEff (f : FieldSpec) (eff : DefaultV) : Option ArgOpts :=
+  let defNone := decide (f.default = .value (.sc .none))
+  let effNone := decide (eff = .value (.sc .none))
+  if f.ty.optional || defNone == effNone then argOptions { f with default := eff }
+  else if defNone then
+    match f.ty.inner with
+    | .literal _ => argOptions { f with default := eff }          -- `is_choice` comes first
+    | _ => argOptions { f with ty := { f.ty with optional := true }, default := eff }
+  else argOptions { f with default := .missing }
+
 /-- one leaf field whose effective default (`FieldWrapper.default`) is `eff`:
     `get_arg_options` → empty-argv argparse → `postprocess`.
     `force` = the field's `required` was forced to False (`child_wrapper.required = False` under an Optional
@@ -238,24 +255,19 @@ def postprocessC (f : FieldSpec) (nsv : Val) : PostOut :=
     Returns the constructor argument and whether it equals the field's default (`arg_value != default_value`
     in `_create_dataclass_instance`). -/
 def leafWithDefault (fenv : FEnv) (force : Bool) (f : FieldSpec) (eff : DefaultV) : Out (Val × Bool) :=
-  -- `get_arg_options` looks at `field.default is None`, `required` at the cascade's `default is None`;
-  -- `Fields.argOptions` has one default, so the two must agree for non-Optional annotations
-  if !f.ty.optional && (decide (f.default = .value (.sc .none)) != decide (eff = .value (.sc .none))) then
-    .unmodelled "None-ness of definition default and effective default differ"
-  else
-    match argOptions { f with default := eff } with
-    | none => .unmodelled "annotation outside the modelled fragment"
-    | some ao =>
-      if ao.required && !force then .exit2
-      else
-        match emptyArgvValue fenv ao with
-        | .ok nsv =>
-          (match postprocessC f nsv with
-           | .ok v => .ok (v, decide (v = defaultVal eff))
-           | .raise exc => .raise exc true)
-        | .exit2 => .exit2
-        | .raise exc o => .raise exc o
-        | .unmodelled w => .unmodelled w
+  match argOptionsEff f eff with
+  | none => .unmodelled "annotation outside the modelled fragment"
+  | some ao =>
+    if ao.required && !force then .exit2
+    else
+      match emptyArgvValue fenv ao with
+      | .ok nsv =>
+        (match postprocessC f nsv with
+         | .ok v => .ok (v, decide (v = defaultVal eff))
+         | .raise exc => .raise exc true)
+      | .exit2 => .exit2
+      | .raise exc o => .raise exc o
+      | .unmodelled w => .unmodelled w
 
 /-- one leaf field: what `set_default` stored → cascade → `leafWithDefault` -/
 def parseLeaf (fenv : FEnv) (force : Bool) (pd : PD) (f : FieldSpec) (e : Option Entry) : Out (Val × Bool) :=
@@ -350,5 +362,174 @@ def layoutFile (api : Api) (dest : Str) (f : File) : File :=
 /-- the loop of the property: save `x`, use the file as the config file, parse an empty command line -/
 def loop (fenv : FEnv) (api : Api) (dest : Str) (spec : Spec) (x : Inst) : Out Inst :=
   run fenv api dest spec (layoutFile api dest (fileOf x))
+
+/-! ### the decidable domain predicates
+
+  Used by the theorems of `Props/C15.lean` and evaluated by the driver op `cl.filesafe` (the harness checks on real loops
+  that `fileSafe` is true exactly when the real result equals `x`). -/
+
+/-- item types of containers: a base type that is not `Any` (a Union item type is a typing object, not callable) -/
+def itemOk : ITy → Bool
+  | .base .any => false
+  | .base _ => true
+  | .union _ => false
+
+def unionAltOk : BTy → Bool
+  | .int => true
+  | .float => true
+  | .str => true
+  | .bool => true
+  | _ => false
+
+/-- scalar annotations: a base type that is not `Any`, or a Union of int / float / str / bool -/
+def scalarTyOk : ITy → Bool
+  | .base .any => false
+  | .base _ => true
+  | .union alts => !alts.isEmpty && alts.all unionAltOk
+
+/-- a Literal value of the modelled kind (no Enum-member values: never generated, so never compared with the code) -/
+def litValOk : Scalar → Bool
+  | .str _ => true
+  | .int _ => true
+  | .bool _ => true
+  | _ => false
+
+/-- `InCliGrammar`: the annotation is one the command-line model covers and whose values `to_dict` writes -/
+def InCliGrammar (t : FTy) : Bool :=
+  match t.inner with
+  | .sc i => scalarTyOk i
+  | .literal vals => !t.optional && vals.all litValOk && (vals.mapM literalName).isSome
+  | .list i => itemOk i && (containerConv i).isSome
+  | .tuple items => items.all itemOk && (tupleConv items).isSome
+  | .vtuple i => itemOk i
+
+/-- the model's `Path(s)` keeps `s` (the shared `parsePath` does no normalisation: other strings are `unmodelled`) -/
+def pathGood (s : Str) : Bool := parsePath s == .ok (.path s)
+
+def scalarPathGood : Scalar → Bool
+  | .path s => pathGood s
+  | _ => true
+
+def pathsGood : Val → Bool
+  | .sc s => scalarPathGood s
+  | .list l => l.all scalarPathGood
+  | .tuple l => l.all scalarPathGood
+
+/-- **`inModel`**: everything that keeps a leaf outside the *model* (not a defect of the code, a limit of what is
+    modelled and compared): `Any`, container items of Union type, Unions with non-primitive members, `Optional[Literal]`,
+    Enum-valued Literals, and path strings the shared `parsePath` would have to normalise. -/
+def inModel (f : FieldSpec) (v : Val) : Bool := InCliGrammar f.ty && pathsGood v
+
+def hasBTy : BTy → Scalar → Bool
+  | .int, .int _ => true
+  | .float, .float _ => true
+  | .str, .str _ => true
+  | .bool, .bool _ => true
+  | .path, .path _ => true
+  | .enum c ms, .enum c' n => c == c' && ms.contains n
+  | _, _ => false
+
+def hasITy : ITy → Scalar → Bool
+  | .base b, s => hasBTy b s
+  | .union alts, s => alts.any (fun b => hasBTy b s)
+
+def hasItems : List ITy → List Scalar → Bool
+  | [], [] => true
+  | t :: ts, s :: ss => hasITy t s && hasItems ts ss
+  | _, _ => false
+
+/-- a value a `Literal[…]` annotation admits -/
+def litMember (vals : List Scalar) (s : Scalar) : Bool := litValOk s && vals.contains s
+
+def hasNTy : NTy → Val → Bool
+  | .sc i, .sc s => hasITy i s
+  | .literal vals, .sc s => litMember vals s
+  | .list i, .list l => l.all (hasITy i)
+  | .tuple items, .tuple l => hasItems items l
+  | .vtuple i, .tuple l => l.all (hasITy i)
+  | _, _ => false
+
+/-- `HasType t v`: `v` is a value of annotation `t` -/
+def HasType (t : FTy) (v : Val) : Bool :=
+  (t.optional && v == .sc .none) || hasNTy t.inner v
+
+/-- an item that `encode` leaves unchanged (today Enum members and Paths are written as `str` and the items of a
+    list default are never converted back: finding C15-D17a) -/
+def safeItem : Scalar → Bool
+  | .enum _ _ => false
+  | .path _ => false
+  | _ => true
+
+def itemsSafe : Val → Bool
+  | .sc _ => true
+  | .list l => l.all safeItem
+  | .tuple l => l.all safeItem
+
+/-- a string literal value is found back by its name: `choice_dict = {str(v): v for v in values}` keeps the LAST value of
+    each name (field_wrapper.py:891), so a str value shadowed by a later value with the same `str()` is lost (finding
+    C15-literal-name-collision); non-str values are never looked up -/
+def litSafe (vals : List Scalar) (s : Scalar) : Bool :=
+  match s with
+  | .str n => vals.reverse.find? (fun v => literalName v = some n) == some s
+  | _ => true
+
+def literalSafe (t : FTy) (v : Val) : Bool :=
+  match t.inner, v with
+  | .literal vals, .sc s => litSafe vals s
+  | _, _ => true
+
+/-- a str held by a Union field is written as that string and, being a string default, is parsed again by the Union's
+    `type=` (members tried in order): safe only when that gives the same string back (finding C15-union-str-reparsed).
+    Conservative where a member's parser is outside the modelled fragment (non-ASCII text for `int`): then it is false
+    although the code may be fine — the loop model is `unmodelled` there and op `cl.filesafe` does not compare. -/
+def unionSafe (fenv : FEnv) (t : FTy) (v : Val) : Bool :=
+  match t.inner, v with
+  | .sc (.union alts), .sc (.str s) => unionApply fenv (alts.map bconvOf) s == .ok (.str s)
+  | _, _ => true
+
+/-- what the cascade yields for a leaf that the file does not mention is None (finding C15-D17b excludes the rest) -/
+def noneDefault (pd : PD) (f : FieldSpec) : Bool :=
+  match cascade pd f none with
+  | some .missing => true
+  | some (.value (.sc .none)) => true
+  | _ => false
+
+/-- `leafSafe`: the named exclusions for one leaf -/
+def leafSafe (fenv : FEnv) (pd : PD) (f : FieldSpec) (v : Val) : Bool :=
+  itemsSafe v && literalSafe f.ty v && unionSafe fenv f.ty v && (!(v == .sc .none) || noneDefault pd f)
+
+/-- an `Optional[Dataclass]` holding None comes back as None when every leaf default of the class passes through the
+    pipeline unchanged and without error (a syntactic sufficient condition is `defaultsQuiet`, Props/C15) -/
+def quietNone (fenv : FEnv) (child : Spec) (cpd : PD) : Bool :=
+  match parseSpec fenv true child cpd .nil with
+  | .ok (_, true) => true
+  | _ => false
+
+/-- **`fileSafe`**: the decidable predicate naming what today's code does not reproduce (the open findings) -/
+def fileSafe (fenv : FEnv) : Spec → PD → Inst → Bool
+  | .nil, _, .nil => true
+  | .leaf f rest, pd, .leaf _ v xr => leafSafe fenv pd f v && fileSafe fenv rest pd xr
+  | .sub name _ _ dflt child rest, pd, .sub _ _ xc xr =>
+    (match childPD pd name dflt with
+     | some cpd => fileSafe fenv child cpd xc
+     | none => false) && fileSafe fenv rest pd xr
+  | .sub name _ _ dflt child rest, pd, .subNone _ xr =>
+    (match childPD pd name dflt with
+     | some cpd => cpd.isNone && quietNone fenv child cpd     -- `isNone`: finding C15-none-class-is-absent
+     | none => false) && fileSafe fenv rest pd xr
+  | _, _, _ => false
+
+/-- `x` is an instance of the class tree (executable form of `C15.Conforms`) -/
+def conformsB : Spec → Inst → Bool
+  | .nil, .nil => true
+  | .leaf f rest, .leaf n v xr => n == f.name && inModel f v && HasType f.ty v && conformsB rest xr
+  | .sub name cls _ _ child rest, .sub n c xc xr => n == name && c == cls && conformsB child xc && conformsB rest xr
+  | .sub name _ opt _ _ rest, .subNone n xr => n == name && opt && conformsB rest xr
+  | _, _ => false
+
+def wfB : Spec → Bool
+  | .nil => true
+  | .leaf f rest => !rest.names.contains f.name && wfB rest
+  | .sub name _ _ _ child rest => !rest.names.contains name && wfB child && wfB rest
 
 end SpVerif.ConfigLoop
